@@ -56,6 +56,11 @@ func runC01(env *lib.Env, rep *lib.Report) {
 				Alpha: alphaOpt{Tables: []string{"t1"}, Inserts: []int{1, 2}, Deletes: true}, Depth: d, FinalReopen: true})
 		}
 	}
+	// the same table names declared with other columns than in every other config: each worker process runs
+	// histories of both kinds in turn, as a server does that opens one database after another
+	cfgs = append(cfgs, histCfg{Name: "real/t1x8/other-columns", Opt: real, Seed: "t1x8", Alpha: fullAlpha, Depth: d, AltSchemas: true, FinalReopen: true})
+	cfgs = append(cfgs, histCfg{Name: "real/case-twins", Opt: real, Seed: "case-twins",
+		Alpha: alphaOpt{Tables: []string{"T1", "t1"}, Inserts: []int{1, 9}, Updates: true, Deletes: true, FewDeletes: true}, Depth: d, FinalReopen: true})
 	// deeper, with a two-table alphabet, from the empty database
 	cfgs = append(cfgs, histCfg{Name: "real/empty/deep", Opt: real, Seed: "empty", Alpha: twoAlpha, Depth: d + 1, FinalReopen: true})
 	rep.Bounds["depth"] = d
@@ -140,6 +145,9 @@ func runC11(env *lib.Env, rep *lib.Report) {
 	// database (the store closed and opened again with no recovery in between)
 	cfgs = append(cfgs, histCfg{Name: "real/catalog-split/c0+c7+reselect", Opt: worldOpt{}, Seed: "catalog-split",
 		Alpha: alphaOpt{Tables: []string{"c0", "c7"}, Inserts: []int{1, 9}, Deletes: true, FewDeletes: true}, Depth: d, TickChoice: true, Reselect: true, Walk: true, OnlyWalk: true})
+	// two tables whose names differ in letter case only: a root change of one must not touch the other's catalog row
+	cfgs = append(cfgs, histCfg{Name: "real/case-twins", Opt: worldOpt{}, Seed: "case-twins",
+		Alpha: alphaOpt{Tables: []string{"T1", "t1"}, Inserts: []int{1, 9}, Deletes: true, FewDeletes: true}, Depth: d, TickChoice: true, Reopen: true, Walk: true, OnlyWalk: true})
 	// refused row insertions (row over the size limit) between accepted ones: the refusal must leave the leaf as it was
 	refusing := alphaOpt{Tables: []string{"t1"}, Inserts: []int{1, 9}, Updates: true, FailingInsert: true}
 	cfgs = append(cfgs, histCfg{Name: "real/t1x8/refused-inserts", Opt: worldOpt{}, Seed: "t1x8", Alpha: refusing, Depth: d, TickChoice: true, Reopen: true, Crash: true, Walk: true, OnlyWalk: true},
